@@ -126,6 +126,26 @@ TRUSTED_BASE = [
     "`if` whose branches only assign / append is a conditional VALUE of the variables it rebinds; scope.get on a non-dict is None (CPython "
     "raises: ASGI scopes are dicts); self.<attr> reads are inputs, Decision is the record of its declared fields; by hand remain __init__ "
     "and what the downstream application does",
+    "for the translated REDACTION ENFORCER _ensure_list_size / _set_by_path / apply_obligations (C19; harness/pytolean_cursor.py on top of "
+    "pytolean.py, lean/Rbacx/Model/PyCursor.lean, validated against the real functions on every C19 run by Run/SrcEvalEnforcer.lean — final "
+    "tree, dict key order and escaping exceptions) the trusted readings are: CURSOR = ACCESS PATH — the first parameter of _set_by_path is THE "
+    "state, a value tree; the local `cur`, bound once to it and re-bound only by subscripting itself, is the list of subscripts taken (str = "
+    "dict key, int = list index, negative ones resolved against the list's length when used); reading through it is atPath state path, a "
+    "store through it (cur[k] = v, cur[k][i] = v, lst.append(v) through the helper's reference parameter) is the functional update of the "
+    "state at that path, seen by the caller because the state IS the caller's tree; sound on TREES only (no object reachable along two "
+    "paths: updating one path then changes no other; a stored value may not mention the cursor or the state); which operation raises is "
+    "PyCursor.lean's: x[k] load (KeyError / IndexError / TypeError), x[k] = v on a list in range only (IndexError otherwise, a list never "
+    "grows by assignment; d[k] = v replaces in place else appends), `a, b = v` not two items, int(str) = the model's parsePyInt (compared "
+    "with CPython's int on every run; a float argument is not represented), a bool as a list index is not represented; every translated "
+    "function returns Option — none = an exception escaped or a while budget ran out — and the obligation proves `some`; the while loop of "
+    "_ensure_list_size runs on the budget idx + 1 - len(lst), a measure supplied by the plugin and NOT trusted (too small a measure is `none`); "
+    "`try: X = int(E) except Exception: H` is a match on int()'s outcome, accepted only when E is a name or a slice of one (nothing else in "
+    "the try body can raise); DEEP COPY AS IDENTITY ON VALUES — copy.deepcopy(payload) is payload: what the copy buys in CPython (the result "
+    "shares no object with the argument) is what a value has for free, so with in_place=False the input value is untouched by construction "
+    "and that the caller's OBJECT is untouched (resp. is the returned object with in_place=True) is tied by the harness's identity / "
+    "before-after comparison alone; ob.get(...) on a spec that is not a mapping is None here (CPython raises AttributeError) and a "
+    "non-iterable `fields` iterates as empty (CPython raises TypeError): the equality for apply_obligations is stated for documented specs "
+    "(plainSpec); by hand remains DecisionLogger (sampling, priority of the redaction sets, size bound, the except fall-back)",
 ]
 
 
